@@ -48,6 +48,10 @@ def gen_case(rng, W, threads):
     layouts = [("ptr 1 0 %d" % (m * n), (1, m, m * n)), ("ptr 0 1 %d" % (m * n), (n, 1, m * n))]
     k = n + rng.randint(1, 3)
     layouts.append(("ptr %d 1 %d" % (k, m * k), (k, 1, m * k)))
+    # both strides different from 1 (an interleaved target / a doubly strided view): dependents 2 apart, independents 2m+1 apart
+    io = 2 * m + 1
+    sz = (m - 1) * 2 + (n - 1) * io + 1
+    layouts.append(("ptr 2 %d %d" % (io, sz), (2, io, sz)))
     # serial reference first
     g.emit("threads 1")
     ser = {}
@@ -135,7 +139,7 @@ def run(ctx, replay):
     ctx.pending, ctx.nbad = [], 0
     ncpu = os.cpu_count() or 2
     maxth = max(2, min(16, ncpu))
-    ncase = 40 if ctx.tier == "quick" else 250
+    ncase = 60 if ctx.tier == "quick" else 300
     for (label, kw), exe in zip(vs, exes):
         W = c02.width(kw)
         ctx.curW = W
